@@ -2,7 +2,7 @@
    Errs.discr_run raises before its registry lookup, and otherwise hands on the hashable tag read from the input.
    Re-checked on every run against the current translation (coq/gen/K105c.v). *)
 From Coq Require Import List String Bool.
-From Verif Require Import Core Errs DiscrEmit.
+From Verif Require Import Core Errs ErrsDiscrEmit.
 From VerifGen Require Import K105c.
 Import ListNotations.
 
